@@ -52,11 +52,11 @@ type WriteAheadLog struct {
 
 // NewWriteAheadLog creates a new WAL by supplying options, for example using a base path: wal.NewWriteAheadLogOptions(wal.BasePath("some_directory"))
 func NewWriteAheadLog(opts *Options) (WriteAheadLogI, error) {
-	appender, err := NewAppender(opts)
+	replayer, err := NewReplayer(opts)
 	if err != nil {
 		return nil, err
 	}
-	replayer, err := NewReplayer(opts)
+	appender, err := NewAppender(opts)
 	if err != nil {
 		return nil, err
 	}
